@@ -5,7 +5,9 @@
    One statement is still false of the code (F22, a table without rows): the full statement stays as a Definition in
    CsvProofs.v, repeated in the comment, with T_..._refuted and a theorem that says what happens instead on the whole
    class.  F18 (rows of different widths => std::terminate) was repaired by 0a28cd4; its statement is now proved. *)
-From BS Require Import Base CsvSpec CsvSpecProofs CsvSpecComplete CsvModel CsvWriterProofs CsvReaderProofs CsvStreamProofs CsvTotalProofs CsvStreamTotal CsvProofs.
+From BS Require Import Base CsvSpec CsvSpecProofs CsvSpecComplete CsvModel CsvWriterProofs CsvReaderProofs CsvStreamProofs CsvTotalProofs CsvStreamTotal CsvProofs CsvChunks.
+From BS Require Import UtfSpec CsvEncodings.
+From BS Require UtfModel StreamSpec StreamLossless.
 Local Open Scope N_scope.
 
 (* ---- the specification is coherent: the reference parser inverts every rendering of every table ---- *)
@@ -139,6 +141,64 @@ Theorem T_C09_stream_eq_mem : forall K sep chs final t text keys, (0 < K)%nat ->
 Proof. exact reader_stream_eq_mem. Qed.
 Print Assumptions T_C09_stream_eq_mem.
 
+(* ---- the chunking plays no role.  CCsvStreamReader reaches its CEncodedStreamReader<char> through ReadChunk and IsEnd
+   only; the model is written over any chunk source (CsvModel.v, Section SRC) and csv_load_chunks early sep keys chunks
+   is the loader fed an ARBITRARY list of non-empty chunks (what the encoded reader delivers for a UTF-16/32 source:
+   decoded chunks of varying sizes), IsEnd turning true with the last chunk (early = true) or only with the EndFile
+   answer.  On every RFC 4180 text it answers as the memory reader on the concatenation: same rows or same error ---- *)
+Theorem T_C09_chunking_independent : forall early sep chs final t keys chunks, allowed sep ->
+  Forall (fun c => c <> []) chunks ->
+  render sep chs final t = Some (concat chunks) ->
+  csv_load_chunks early sep keys chunks = csv_load sep keys (concat chunks).
+Proof. exact csv_load_chunks_eq_mem. Qed.
+Print Assumptions T_C09_chunking_independent.
+
+Theorem T_C09_reader_rfc_chunks : forall early sep chs final hdr rows keys chunks,
+  allowed sep -> NoDup hdr -> uniform hdr rows -> Forall (fun c => c <> []) chunks ->
+  render sep chs final (hdr :: rows) = Some (concat chunks) ->
+  csv_load_chunks early sep keys chunks = Ok (select hdr keys rows).
+Proof. exact csv_load_chunks_rfc. Qed.
+Print Assumptions T_C09_reader_rfc_chunks.
+
+(* csv_load_stream K is the instance "UTF-8 source, chunks of exactly K bytes" of the same generic loader (by
+   definition, CsvModel.v); on RFC 4180 texts it answers as the loader fed the K-sized chunks of the payload *)
+Theorem T_C09_stream_is_chunks : forall K early sep chs final t text keys, (0 < K)%nat -> allowed sep ->
+  render sep chs final t = Some (stream_payload K text) ->
+  csv_load_stream K sep keys text = csv_load_chunks early sep keys (chunks_of K (stream_payload K text)).
+Proof. exact csv_load_stream_is_chunks. Qed.
+Print Assumptions T_C09_stream_is_chunks.
+
+Theorem T_C09_chunks_of : forall K l, (0 < K)%nat ->
+  concat (chunks_of K l) = l /\ Forall (fun c => c <> []) (chunks_of K l).
+Proof. exact chunks_of_spec. Qed.
+Print Assumptions T_C09_chunks_of.
+
+(* ---- any of the five encodings.  csv_load_encoded K pol mark fuel sep keys data seekable (CsvEncodings.v) = the CSV loader
+   fed the chunks that the stream family's model of CEncodedStreamReader<char, K> (StreamModel.v: detection, BOM, windows
+   of K bytes, decoding to UTF-8, a character cut by the end of a window carried over; C13) delivers for the byte stream
+   data; None = the encoded reader reported DecodeError.  The text cps (code points) whose UTF-8 form is an RFC 4180
+   rendering, stored as UTF-8 / UTF-16LE / UTF-16BE / UTF-32LE / UTF-32BE, with BOM or BOM-less starting with an ASCII
+   character (outside the detection defect classes of C13: stream_defect), loads from the stream to exactly what the
+   UTF-8 text loads to from memory, for every chunk size K (multiple of 4, >= 32, as the class asserts) ---- *)
+Theorem T_C09_any_encoding_eq_mem : forall K pol mark fuel sep keys e b cps chs final t sk,
+  (K mod 4 = 0)%nat -> (32 <= K)%nat -> Forall scalar cps ->
+  StreamSpec.detectable b cps -> StreamLossless.stream_defect e b cps = false ->
+  allowed sep -> render sep chs final t = Some (encs W8 cps) ->
+  (length (StreamSpec.with_bom b e cps) < fuel)%nat ->
+  csv_load_encoded K pol mark fuel sep keys (StreamSpec.with_bom b e cps) sk = Some (csv_load sep keys (encs W8 cps)).
+Proof. exact csv_load_encoded_eq_mem. Qed.
+Print Assumptions T_C09_any_encoding_eq_mem.
+
+Theorem T_C09_any_encoding : forall K pol mark fuel sep keys e b cps chs final hdr rows sk,
+  (K mod 4 = 0)%nat -> (32 <= K)%nat -> Forall scalar cps ->
+  StreamSpec.detectable b cps -> StreamLossless.stream_defect e b cps = false ->
+  allowed sep -> NoDup hdr -> uniform hdr rows ->
+  render sep chs final (hdr :: rows) = Some (encs W8 cps) ->
+  (length (StreamSpec.with_bom b e cps) < fuel)%nat ->
+  csv_load_encoded K pol mark fuel sep keys (StreamSpec.with_bom b e cps) sk = Some (Ok (select hdr keys rows)).
+Proof. exact csv_load_encoded_rfc. Qed.
+Print Assumptions T_C09_any_encoding.
+
 (* ---- fuel suffices, on ARBITRARY text (not only RFC 4180 renderings): both loaders answer with rows or with a
    catchable ParsingError / InvalidOptions (clean); in particular never OutOfFuel (every line consumes at least one
    byte: no hang), never the model's UB outcome (no read outside the decoded buffer during in-place unescaping),
@@ -150,6 +210,11 @@ Print Assumptions T_C09_load_total.
 Theorem T_C09_load_stream_total : forall K sep keys text, (0 < K)%nat -> clean (csv_load_stream K sep keys text).
 Proof. exact csv_load_stream_total. Qed.
 Print Assumptions T_C09_load_stream_total.
+
+Theorem T_C09_load_chunks_total : forall early sep keys chunks, Forall (fun c => c <> []) chunks ->
+  clean (csv_load_chunks early sep keys chunks).
+Proof. exact csv_load_chunks_total. Qed.
+Print Assumptions T_C09_load_chunks_total.
 
 (* ---- writer side of the width check (finding F18, repaired by 0a28cd4: the report used to leave the destructor of
    CCsvWriteObjectScope, i.e. std::terminate): a table in which some row has another number of fields than the first
@@ -202,6 +267,25 @@ Example T_C09_example_stream :
   Ok [[Some [49]; Some [120; 34; 59]; None; Some [49]]; [Some []; Some []; None; Some []]].
 Proof. exact stream_example. Qed.
 Print Assumptions T_C09_example_stream.
+
+Example T_C09_example_chunks :
+  csv_load_chunks false 59 [[98]; [97]] [[97]; [59; 98; 10; 34]; [120; 34; 34; 59; 34; 59; 34]; [49]; [34; 13]; [10; 59; 10]] =
+    Ok [[Some [49]; Some [120; 34; 59]]; [Some []; Some []]] /\
+  csv_load_chunks true 59 [[98]; [97]] [[97; 59; 98; 10; 34; 120; 34; 34; 59; 34; 59; 34; 49; 34; 13; 10; 59; 10]] =
+    Ok [[Some [49]; Some [120; 34; 59]]; [Some []; Some []]].
+Proof. exact chunks_example. Qed.
+Print Assumptions T_C09_example_chunks.
+
+(* header "a;EUR-sign", row "1;u-umlaut": UTF-16LE with BOM, UTF-32BE without; the columns asked for in the other order *)
+Example T_C09_example_encoded :
+  csv_load_encoded 32 UtfModel.Skip [0x3F] 100 59 [[0xE2; 0x82; 0xAC]; [97]]
+    (StreamSpec.with_bom true StreamSpec.Utf16le [97; 59; 0x20AC; 10; 49; 59; 0xFC; 10]) true =
+    Some (Ok [[Some [0xC3; 0xBC]; Some [49]]]) /\
+  csv_load_encoded 32 UtfModel.Skip [0x3F] 100 59 [[0xE2; 0x82; 0xAC]; [97]]
+    (StreamSpec.with_bom false StreamSpec.Utf32be [97; 59; 0x20AC; 10; 49; 59; 0xFC; 10]) true =
+    Some (Ok [[Some [0xC3; 0xBC]; Some [49]]]).
+Proof. exact encoded_example. Qed.
+Print Assumptions T_C09_example_encoded.
 
 Example T_C09_example_width : csv_load 44 [[97]] [97; 44; 98; 13; 10; 49; 44; 50; 44] = Err ParsingError.
 Proof. exact example_width. Qed.
